@@ -561,7 +561,7 @@ def multigen_induction(ctx):
 @prop("C07", "multigen", "Trace_MultiGen")
 def c07(ctx):
     q = ctx.quick()
-    ms, ml = (3, 3) if q else (4, 3)
+    ms, ml = (3, 3) if q else (4, 4)
     ctx.rule = ("MC: MultiGen.tla, all length vectors with <=%d sources and lengths 0..%d, 3 strategies, every "
                 "weighted choice; negative control: the re-selection of the pinned commit hangs; thorough tier: inductive invariant checked "
                 "with Apalache for three sources of arbitrary lengths (spec/apalache/MultiGenInd.tla). A: every such vector "
@@ -584,7 +584,7 @@ def c07(ctx):
     vlib.exec_and_judge(ctx, "multigen", cases, "Trace_MultiGen", "A", sample_keys=keys)
     ctx.exhaustive = True
     rnd = ctx.path("cases-b.ndjson")
-    vlib.harness(["gen", "multigen", ctx.seed, 1500 if q else 20000, rnd])
+    vlib.harness(["gen", "multigen", ctx.seed, 1500 if q else 60000, rnd])
     vlib.exec_and_judge(ctx, "multigen", rnd, "Trace_MultiGen", "B", sample_keys=keys)
 
 
